@@ -94,8 +94,8 @@ def parseOp (cmd : String) (args : List String) : Option Op :=
     let image ← if img == "-" then some none else (parseHexBytes img).map some
     some (.update (← parseIntList nids) (← decInt t) (← decInt v) image)
   | "UF", [nids, t, v, f] => do
-    -- Gateway.update_fw with a firmware file: "-" no path, "!" unreadable path, else the file's text
-    let file ← if f == "-" then some FwFile.noPath else if f == "!" then some FwFile.unreadable
+    -- Gateway.update_fw with a firmware file: "~" no path, "!" unreadable path, else the file's text
+    let file ← if f == "~" then some FwFile.noPath else if f == "!" then some FwFile.unreadable
                else (decStr f).map FwFile.text
     some (updateFwOp (← parseIntList nids) (← decInt t) (← decInt v) file)
   | "T", [t] => (decInt t).map Op.clock
